@@ -144,7 +144,8 @@ PROPS = {
     ),
     "C05": dict(
         props="Props/C05.v", tables=["core", "json"],
-        src=["py_to_json", "py_get_tree_info", "py_get_attributes_info", "py_get_constraints_info", "py_get_ctc_info"],
+        src=["py_to_json", "py_get_tree_info", "py_get_attributes_info", "py_get_constraints_info", "py_get_ctc_info",
+             "py_parse_ast_constraint", "py_parse_constraints"],
         suites=[suite_json.run],
         rule=("suites W-json / R-json: JSONWriter.transform() (returned text = file bytes, parsed back with json.loads) vs "
               "the model's [json_write]; JSONReader on the file and JSONReader.parse_json on the loaded object vs "
@@ -269,6 +270,9 @@ PROPS = {
     ),
     "C01": dict(
         props="Props/C01.v", tables=["core", "uvl"],
+        src=["py_UVLWriter_transform", "py_UVLWriter_read_features", "py_UVLWriter_read_attributes",
+             "py_UVLWriter_serialize_value", "py_UVLWriter_serialize_relation", "py_UVLWriter_read_constraints",
+             "py_UVLWriter__serialize_node", "py_safename", "py_safe_simple_name"],
         suites=[suite_uvl.run, suite_known.run_c01_known],
         rule=("suites W-uvl (bytes of UVLWriter vs [uvl_write]), P-uvl (the real uvlparser parse tree of the written file, "
               "converted to the model's syntax-tree type, vs [cst_of_fm]: validates the parser premise of the theorems) and "
